@@ -198,20 +198,37 @@ func makeAccumulatorFunc(expr parser.ItemType) (newAccumulatorFunc, error) {
 		}, nil
 	case "avg":
 		return func() *accumulator {
-			var count, sum float64
+			var count, mean float64
 			var hasValue bool
 
 			return &accumulator{
+				// The mean is updated incrementally, as the reference engine
+				// does it: no overflow for large values, same rounding.
 				AddFunc: func(v float64) {
-					hasValue = true
-					count += 1
-					sum += v
+					if !hasValue {
+						hasValue = true
+						count = 1
+						mean = v
+						return
+					}
+					count++
+					if math.IsInf(mean, 0) {
+						if math.IsInf(v, 0) && (mean > 0) == (v > 0) {
+							// Same infinity: the mean is correct already.
+							return
+						}
+						if !math.IsInf(v, 0) && !math.IsNaN(v) {
+							// A finite value does not change an infinite mean.
+							return
+						}
+					}
+					mean += v/count - mean/count
 				},
-				ValueFunc: func() float64 { return sum / count },
+				ValueFunc: func() float64 { return mean },
 				HasValue:  func() bool { return hasValue },
 				Reset: func(_ float64) {
 					hasValue = false
-					sum = 0
+					mean = 0
 					count = 0
 				},
 			}
